@@ -337,6 +337,25 @@ func c08JBIG2Segments(r *kit.Rand) []byte {
 		// a text region whose list of referred segments is very long: two empty
 		// symbol dictionaries, the second one referring to thousands of segments,
 		// and a text region without instances referring to both thousands of times
+		if r.Chance(1, 5) {
+			// thousands of tiny text regions, each referring to sixteen segments
+			// which in turn refer to a segment 65536 times
+			segment(0, 48, nil, 1, append(append(be32(1), be32(1)...), make([]byte, 11)...))
+			wide := make([]uint32, 65536)
+			var all []uint32
+			for i := uint32(1); i <= 16; i++ {
+				segment(i, 53, wide, 1, make([]byte, 10))
+				all = append(all, i)
+			}
+			tr := append(append(be32(1), be32(1)...), make([]byte, 9)...)
+			tr = append(tr, 0, 0)
+			tr = append(tr, be32(0)...)
+			for t := kit.Pick(r, []int{2500, 4000}); t > 0; t-- {
+				segment(200, 6, all, 1, tr)
+			}
+			segment(201, 49, nil, 1, nil)
+			return out
+		}
 		n := kit.Pick(r, []int{1000, 6000, 6000})
 		segment(0, 48, nil, 1, append(append(be32(1), be32(1)...), make([]byte, 11)...))
 		full := r.Bool()
